@@ -259,7 +259,15 @@ TEMP_MACROS = [
                                                                            "TWICE ( x0 := x0 + 1 ); TWICE ( x1 := x1 + 2 )"]),
     ("DEFINE IFZ <V> THEN <P> FI AS #0 := $0; #1 := 1; LOOP #0 DO #1 := 0 END; LOOP #1 DO $1 END END DEFINE\n",
      ["IFZ x1 THEN x0 := 5 FI", "IFZ x1 THEN IFZ x2 THEN x0 := 7 FI FI", "x1 := 1; IFZ x1 THEN x0 := 5 FI; IFZ x2 THEN x0 := x0 + 1 FI"]),
+    # a temporary that is read again *after* the slot: any collision with a temporary of the slot's own expansion changes a value
+    ("DEFINE SAVE <ID> IN ( <P> ) AS #0 := $0; $1; $0 := #0 END DEFINE\n",
+     ["SAVE a IN ( a := 1 )", "SAVE a IN ( a := 1; SAVE b IN ( b := 2 ) )", "SAVE a IN ( SAVE b IN ( b := 2 ); a := b )",
+      "SAVE a IN ( a := 7 ); SAVE b IN ( b := a )", "SAVE a IN ( SAVE b IN ( SAVE x0 IN ( x0 := 9; a := 1; b := 2 ) ) )"]),
 ]
+
+
+def with_prio(defs, p):
+    return defs.replace('DEFINE ', 'DEFINE PRIO %d ' % p).replace('END DEFINE PRIO %d ' % p, 'END DEFINE')
 
 
 def apply_trace(ctx, texts, budgets):
@@ -288,9 +296,13 @@ def check_C10(ctx):
     if ctx.harness is None:
         return finish(ctx)
     texts = []
+    prios = front.boundary_prios()
+    ctx.cov['boundary_priorities'] = prios
     for defs, uses in TEMP_MACROS:
         for u in uses:
             texts.append(defs + u)
+            for p_ in prios:
+                texts.append(with_prio(defs, p_) + u)
     # the same macro from two files with equal line numbers, and a body spanning an include (F9)
     multi = [
         (b'm', {b'm': b'include "a" include "b"\nTA ; TB', b'a': b'DEFINE TA AS #0 := 1 END DEFINE', b'b': b'DEFINE TB AS #0 := 2 END DEFINE'}),
@@ -410,10 +422,12 @@ def check_C10(ctx):
             seen.setdefault(nm, set()).add(int(mm.group(1)) if mm else -1)
         ctx.cov['evaluations'] += 1
     # end to end: nested / repeated uses compute what textual expansion with distinct variables computes
-    e2e = []
-    for defs, uses in TEMP_MACROS:
-        for u in uses:
-            e2e.append(defs + 'x1 := 0; x2 := 0; a := 3; b := 4;\n' + u + '\n')
+    e2e, e2e_meta = [], []
+    for defs0, uses in TEMP_MACROS:
+        for defs in [defs0] + [with_prio(defs0, p_) for p_ in prios]:
+            for u in uses:
+                e2e.append(defs + 'x1 := 0; x2 := 0; a := 3; b := 4;\n' + u + '\n')
+                e2e_meta.append((defs, u))
     outs = impl(ctx, ['RUN %s 200000' % files_req(b'm', {b'm': t.encode()}) for t in e2e])
     expect = {
         'SWAP a b': {'a': 4, 'b': 3}, 'SWAP a b; SWAP b a': {'a': 3, 'b': 4}, 'SWAP x0 x1; x2 := x0': {'x0': 0, 'x2': 0},
@@ -421,12 +435,12 @@ def check_C10(ctx):
         'TWICE ( x0 := x0 + 1 ); TWICE ( x1 := x1 + 2 )': {'x0': 2, 'x1': 4},
         'IFZ x1 THEN x0 := 5 FI': {'x0': 5}, 'IFZ x1 THEN IFZ x2 THEN x0 := 7 FI FI': {'x0': 7},
         'x1 := 1; IFZ x1 THEN x0 := 5 FI; IFZ x2 THEN x0 := x0 + 1 FI': {'x0': 1},
+        'SAVE a IN ( a := 1 )': {'a': 3}, 'SAVE a IN ( a := 1; SAVE b IN ( b := 2 ) )': {'a': 3, 'b': 4},
+        'SAVE a IN ( SAVE b IN ( b := 2 ); a := b )': {'a': 3, 'b': 4}, 'SAVE a IN ( a := 7 ); SAVE b IN ( b := a )': {'a': 3, 'b': 4},
+        'SAVE a IN ( SAVE b IN ( SAVE x0 IN ( x0 := 9; a := 1; b := 2 ) ) )': {'a': 3, 'b': 4, 'x0': 0},
     }
-    k = 0
-    for defs, uses in TEMP_MACROS:
-        for u in uses:
-            o = outs[k]
-            k += 1
+    for (defs, u), o in zip(e2e_meta, outs):
+        if True:
             ctx.cov['evaluations'] += 1
             if is_crash(o) or 'ok=1' not in o or 'done=1' not in o:
                 ctx.violation('hygiene-e2e', 'macro program did not compile/run: ' + o[:200], {'source': defs + u})
@@ -531,6 +545,19 @@ def located_ok(files, main, e_file, e_line):
     return 1 <= e_line <= nlines
 
 
+def source_dictionary():
+    """whole string literals of identifier shape in the compiler sources (names the code compares identifiers with)"""
+    import glob
+    ids = set()
+    for f in sorted(glob.glob(os.path.join(vlib.REPO, 'Compiler/src/*.cpp')) + glob.glob(os.path.join(vlib.REPO, 'Compiler/include/*.hpp'))):
+        if 'lex.yy' in f:
+            continue
+        for m in re.finditer(r'"((?:[^"\\\n]|\\.)*)"', open(f, errors='replace').read()):
+            if re.fullmatch(r'[A-Za-z_][A-Za-z0-9_]*', m.group(1)):
+                ids.add(m.group(1))
+    return sorted(ids) or ['x0']
+
+
 def check_C02(ctx):
     build_all(ctx, ['Theo.Props.C02'], C02_THMS)
     if ctx.harness is None:
@@ -572,6 +599,31 @@ def check_C02(ctx):
             text = ' '.join(v)
             cases.append((b'm', {b'm': text.encode('latin1')}, {'text': {'m': text}}))
     cases += front.program_files(ctx, ctx.n(500, 6000), mutate_frac=0.85, multi_frac=0.3)
+    # dictionary: identifiers the sources themselves treat specially (whole string literals of identifier shape)
+    magic = source_dictionary()
+    ctx.cov['dictionary'] = magic
+    argshapes = ['x1', '2', 'x1 + 1', 'RUN g WITH x1 END', '']
+    for mname in magic:
+        for ar in range(0, 4):
+            for _ in range(3 if ar else 1):
+                args = ' , '.join(r.choice(argshapes[:4]) for _ in range(ar))
+                for pre in ('', 'PROGRAM g IN a DO x0 := a END ', 'PROGRAM %s IN a , b DO x0 := a END ' % mname, 'PROGRAM g IN a DO x0 := a END PROGRAM %s DO x0 := 1 END ' % mname):
+                    for stmt in ('x0 := RUN %s WITH %s END' % (mname, args), 'x0 := RUN g WITH RUN %s WITH %s END END' % (mname, args),
+                                 '%s := RUN g WITH %s END' % (mname, mname), 'LOOP %s DO %s := %s + 1 END' % (mname, mname, mname)):
+                        t = pre + stmt
+                        cases.append((b'm', {b'm': t.encode('latin1')}, {'text': {'m': t}}))
+    for _ in range(ctx.n(200, 2000)):
+        g = sources.Gen(r)
+        defs, main = g.program()
+        ts = sources.toks(defs, main)
+        for _ in range(r.randint(1, 3)):
+            i = r.randrange(len(ts)) if ts else 0
+            if ts and re.fullmatch(r'[a-z][a-z0-9]*', ts[i]):
+                ts[i] = r.choice(magic)
+            else:
+                ts.insert(i, r.choice(magic))
+        t = ' '.join(ts)
+        cases.append((b'm', {b'm': t.encode('latin1')}, {'text': {'m': t}}))
     # macro-heavy garbage
     for _ in range(ctx.n(300, 3000)):
         t = ' '.join(r.choice(front.EXTRACT_VOC + sources.MUT_VOCAB) for _ in range(r.randint(0, 16)))
